@@ -9,6 +9,12 @@ use serde_json::{json, Value};
 use crate::desc::RunDesc;
 use crate::exec::Violation;
 
+/// The typify working tree under test (default /repo; sweeps from a snapshot
+/// may point VERIF_REPO at a snapshot of it).
+pub fn repo_root() -> PathBuf {
+    PathBuf::from(std::env::var("VERIF_REPO").unwrap_or_else(|_| "/repo".into()))
+}
+
 pub fn verif_root() -> PathBuf {
     if let Ok(p) = std::env::var("VERIF_ROOT") {
         return PathBuf::from(p);
